@@ -118,7 +118,7 @@ fn build(cfg: &Cfg) -> SchemaSet {
                 el_occ("Many", r.clone(), 0, Max::Unbounded),
                 el("Nested", TypeRef::n(NS_W, "Level1")),
                 el("Derived", TypeRef::n(NS_W, "DerivedT")),
-                Particle::Ref(ElemRef { target: QName::new(NS_W, "Coded"), min: 0, max: Max::N(1) }),
+                Particle::Ref(ElemRef { target: QName::new(NS_W, "Coded"), min: 0, max: Max::N(1), xmlns: vec![] }),
                 Particle::Choice(vec![el("PickA", r.clone()), el("PickB", TypeRef::b("string"))]),
             ])),
             attrs: vec![Attr { name: "attr".into(), ty: r.clone(), required: false, value_constraint: None }],
